@@ -197,7 +197,41 @@ def w_inter(bound):
     return acc.res()
 
 
+def w_refforms(_):
+    """the reference given in other numeric types: Python int, numpy int16 / int32 / int64 / float32 / float64, for targets
+    close to whole-degree references all around the globe (the decode must not be carried out in the reference's type)."""
+    import numpy as np
+    acc = Acc()
+    k = 0
+    for surface in (False, True):
+        for latr in (-60, -33, -1, 0, 1, 20, 47, 68):
+            for lonr in (-179, -157, -139, -90, -1, 0, 1, 45, 118, 139, 144, 178):
+                for dlat, dlon in ((0.21, 0.17), (-0.19, -0.23)):
+                    lat, lon = Fr(latr) + Fr(dlat).limit_denominator(1000), S.wrap180(Fr(lonr) + Fr(dlon).limit_denominator(1000))
+                    for i in (0, 1):
+                        k += 1
+                        e = C.encode(lat, lon, i, surface)
+                        if C.near_transition(e["rlat"], C.EPS):
+                            continue
+                        me = C.me_surface(7, 12, 1, 40, i, e["yz"], e["xz"]) if surface else C.me_airborne(11, 0xC38, i, e["yz"], e["xz"])
+                        msg = F.es(me, 0x4840D6, 5, 17 + k % 2)
+                        exp = [float(e["rlat"]), float(e["rlon"]), float(e["dlat"]) / 131072, float(e["dlon"]) / 131072, surface, "reference_type"]
+                        for tname, conv in (("int", int), ("int16", np.int16), ("int32", np.int32), ("int64", np.int64),
+                                            ("float32", np.float32), ("float64", np.float64)):
+                            acc.n += 1
+                            r = call(pms.adsb.position_with_ref, msg, conv(latr), conv(lonr))
+                            ok = r[0] == "ok" and isinstance(r[1], tuple) and len(r[1]) == 2 and \
+                                abs(r[1][0] - exp[0]) <= exp[2] + 1e-9 and C.lon_diff(r[1][1], exp[1]) <= exp[3] + 1e-9
+                            if not ok:
+                                acc.bad("withref:%s:wrong_or_raises_for_reference_of_type:%s" % ("surface" if surface else "airborne", tname),
+                                        {"refform": [msg, latr, lonr, tname, exp]})
+        acc.out.add(("refforms", surface))
+    return acc.res()
+
+
 def w_any(t):
+    if t[0] == "f":
+        return w_refforms(None)
     if t[0] == "i":
         return w_inter(t[1])
     if t[0] == "c":
@@ -207,7 +241,7 @@ def w_any(t):
 
 def run(ctx):
     offs = OFF13 if ctx.thorough else OFF7
-    tasks = [("g", None), ("c", False), ("c", True), ("i", None)] + ([("i", 2)] if ctx.thorough else [])
+    tasks = [("g", None), ("c", False), ("c", True), ("i", None), ("f", None)] + ([("i", 2)] if ctx.thorough else [])
     for surface in (False, True):
         lats = S.lat_alphabet(surface, ctx.thorough)
         if not ctx.thorough:
@@ -218,6 +252,8 @@ def run(ctx):
 
 
 def replay(case):
+    if "refform" in case:
+        return [(s_, c_) for s_, c_ in w_refforms(None)["viols"] if c_["refform"][:4] == case["refform"][:4]][:1]
     if "inter" in case:
         return [(s_, c_) for s_, c_ in w_inter(case.get("bound"))["viols"] if c_["inter"] == case["inter"]][:1]
     if "totality" in case:
